@@ -170,7 +170,11 @@ def split_iter(src, sep=None, maxsplit=None):
     split_count = 0
     for s in src:
         if maxsplit is not None and split_count >= maxsplit:
-            def sep_func(x): return False
+            if sep is None and not cur_group and sep_func(s):
+                # like str.split(), drop separators leading the remainder
+                continue
+            cur_group.append(s)
+            continue
         if sep_func(s):
             if sep is None and not cur_group:
                 # If sep is none, str.split() "groups" separators
